@@ -1,6 +1,5 @@
 import SpoxModel.Lemmas.Prog
 import SpoxModel.Lemmas.ProgRename
-import SpoxModel.Model.Bridge
 /-!
 # C01 — a built model computes exactly the dataflow the program describes
 
@@ -110,35 +109,6 @@ theorem written_differently_same_values (S : Sem Val) (p p' : List PNode) (hwf :
   exact (creation_order_irrelevant S p p' hwf hwf' σ hσ D hD _ _
     (updArgs_map σ hσ (fun _ => default) (fun _ => default) (fun _ => rfl) main.args vals)
     r (hmain r hr)).symm
-
-/-- **`build_valid_partial`** — the composition with C04's `Builder` algorithm model
-    (`Model/BuildAlg.lean`) through `Model/Bridge.lean`.  Proved: whenever `Bridge.bridge p` reports
-    `valid` (the algorithm model builds `p`, its flattened nested emission parses back into an
-    `EGraph`, and `validG` accepts that emission for `p` read as a C01 program), the emission exists and
-    computes, for every semantics and all inputs, the direct denotation of `p`'s requested results.
-    **Not proved** (the remaining obligation of `build_valid`, DESIGN.md A.1): that `valid` is always
-    `true` when `BuildAlg.build p` succeeds on a well-formed program whose final structural check
-    (`structOk`) passes.  Instead `bridge` is *executed* by the driver on every generated program and
-    its emission is compared with the real builder's (0 mismatches over ≈ 1 300 programs per run). -/
-theorem build_valid_partial (S : Sem Val) (p : BuildAlg.Prog)
-    (hvalid : (Bridge.bridge p).valid = true) :
-    ∃ (e : EGraph) (argsOf : Nat → List Nat), (Bridge.bridge p).emission = some e ∧
-      (wfCheck (Bridge.toNodes p argsOf) = true → ∀ (b : Nat → Val) (vals : List Val),
-        evalG S (Bridge.toNodes p argsOf) e (fun _ => none) vals
-          = some (denoteG S (Bridge.toNodes p argsOf) b (Bridge.toPG p argsOf 0) vals)) := by
-  unfold Bridge.bridge at hvalid ⊢
-  split at hvalid
-  · simp at hvalid
-  · rename_i bt tr hb
-    simp only at hvalid ⊢
-    split at hvalid
-    · rename_i e hparse
-      simp only at hvalid
-      refine ⟨e, fun g => BuildAlg.lookupL bt.argsOf g, ?_, ?_⟩
-      · simp [hparse]
-      · intro hwf b vals
-        exact valid_sound S _ (wfCheck_sound _ hwf) e _ hvalid b vals
-    · simp at hvalid
 
 /-! ## Non-vacuity: concrete programs, concrete semantics -/
 
